@@ -270,7 +270,7 @@ Fixpoint lstrip_slash (s : string) : string :=
   end.
 
 (* ---------------------------------------------------------------- extraction filters *)
-Inductive ferr := FOutside | FLinkOutside | FAbsLink | FSpecial.
+Inductive ferr := FOutside | FLinkOutside | FAbsLink | FSpecial | FLeaves.
 Inductive fres := FAcc | FRej (e : ferr) | FFuel.
 
 (* tarfile.data_filter(member, R): the name has its leading slashes stripped; the resolved destination and
@@ -458,11 +458,69 @@ Fixpoint untar_from (pol : policy) (all : list member) (R : rpath) (s : state) (
 Definition untar_gen (pol : policy) (R : rpath) (ms : list member) (s : state) : outcome * state :=
   untar_from pol ms R s ms 0.
 
-(* the code of the tree under test (after the repair), the code before the repair, and the intermediate
-   candidate "pass filter='data'" which is not enough on CPython 3.12.1 *)
-Definition untar := untar_gen Repaired.
+(* ---------------------------------------------------------------- links revalidated after the extraction
+   A link is validated when it is created, but what it resolves to can change with the links created after it
+   (b -> c/d; a -> b/../..; then c -> .).  untar_file therefore lists, before and after the member loop, the
+   symbolic links below R that resolve (os.path.realpath) outside R, removes the new ones — again until none
+   is left — and raises tarfile.FilterError if it removed any. *)
+Definition link_leaves (s : state) (R : rpath) (p : rpath) : option bool :=
+  match p with
+  | [] => Some false
+  | c :: d => match realpath s d [c] with Some x => Some (negb (underb R x)) | None => None end
+  end.
+
+(* os.walk(R) does not follow links: the symbolic links strictly below R, with their text *)
+Definition link_cands (s : state) (R : rpath) : list (rpath * string) :=
+  flat_map (fun e => match snd e with
+                     | NSym t => if underb R (fst e) && negb (eqb (fst e) R) then [(fst e, t)] else []
+                     | _ => []
+                     end) (nodes s).
+
+Definition leaves_b (s : state) (R : rpath) (e : rpath * string) : bool :=
+  match link_leaves s R (fst e) with Some true => true | _ => false end.
+
+(* _links_leaving(R); None = the model ran out of fuel *)
+Definition leaving (s : state) (R : rpath) : option (list (rpath * string)) :=
+  if forallb (fun e => match link_leaves s R (fst e) with None => false | _ => true end) (link_cands s R)
+  then Some (List.filter (leaves_b s R) (link_cands s R))
+  else None.
+
+Definition remove_all (s : state) (l : list (rpath * string)) : state :=
+  fold_left (fun acc e => del_node acc (fst e)) l s.
+
+Fixpoint cleanup (fuel : nat) (s : state) (R : rpath) (before : list (rpath * string)) (removed : bool)
+  : option (state * bool) :=
+  match fuel with
+  | O => None
+  | S f =>
+      match leaving s R with
+      | None => None
+      | Some l =>
+          match List.filter (fun e => negb (memb e before)) l with
+          | [] => Some (s, removed)
+          | fresh => cleanup f (remove_all s fresh) R before true
+          end
+      end
+  end.
+
+(* untar_file of the tree under test *)
+Definition untar (R : rpath) (ms : list member) (s : state) : outcome * state :=
+  match leaving s R with
+  | None => (OFuel, s)
+  | Some before =>
+      let '(o, s1) := untar_gen Repaired R ms s in
+      match cleanup (S (List.length (nodes s1))) s1 R before false with
+      | None => (OFuel, s1)
+      | Some (s2, removed) =>
+          (match o with OOk => if removed then OFilter FLeaves else OOk | _ => o end, s2)
+      end
+  end.
+
+(* earlier states of the code: before any repair; the candidate "pass filter='data'", which is not enough on
+   CPython 3.12.1; the first repair (own filter and link creation) without the final revalidation of links *)
 Definition untar_legacy := untar_gen Trusted.
 Definition untar_data_only := untar_gen DataOnly.
+Definition untar_no_revalidation := untar_gen Repaired.
 
 (* ---------------------------------------------------------------- correspondence cases *)
 Inductive onode := ODir | OFile (ino : nat) (data : string) (orw : bool) | OSym (t : string) | OSpecial.
@@ -506,7 +564,7 @@ Definition outcome_eqb (a b : outcome) : bool :=
   match a, b with
   | OOk, OOk | OOs, OOs | OOther, OOther | OFuel, OFuel => true
   | OFilter FOutside, OFilter FOutside | OFilter FLinkOutside, OFilter FLinkOutside
-  | OFilter FAbsLink, OFilter FAbsLink | OFilter FSpecial, OFilter FSpecial => true
+  | OFilter FAbsLink, OFilter FAbsLink | OFilter FSpecial, OFilter FSpecial | OFilter FLeaves, OFilter FLeaves => true
   | _, _ => false
   end.
 
